@@ -1026,6 +1026,14 @@ class ManifestRecursiveLoader:
                             # NB: the preserved entry was modified, its
                             # Manifest needs to be written too
                             self.updated_manifests.add(kept_mpath)
+                        if not ret:
+                            # the entries contradict each other, so one
+                            # of them is stale and we can not tell which;
+                            # a zero size never satisfies the mtime
+                            # shortcut of incremental updates, so
+                            # the file is going to be hashed again
+                            kept.size = 0
+                            self.updated_manifests.add(kept_mpath)
                         # and drop the duplicate
                         entries_to_remove.append(e)
                     else:
